@@ -115,6 +115,7 @@ def run(db, cx):
     shell_threshold(db, cx)
     single_booking(db, cx)
     momentum_closure(db, cx)
+    unit_directions(db, cx)
 
 
 def threshold_pairing(db, cx):
@@ -358,3 +359,59 @@ def momentum_closure(db, cx):
               short(ev["loc"]),
               why="with all products returned, the unsampled product must carry p_in minus the "
                   "sampled product's momentum; otherwise momentum is not conserved")
+
+
+UNITC = {C + "make_unit_vector", C + "from_spherical", C + "rotate", C + "IsotropicDistribution::operator()",
+         C + "ExitingDirectionSampler::operator()", C + "calc_exiting_direction"}
+
+
+def _unit_value(db, ev, depth=0):
+    """Is the value of this write / return a unit vector by construction?"""
+    calls = set(ev.get("calls", []))
+    aux = set(c for c in calls if c.endswith("::value") or c.endswith("Quantity::value")
+              or c.endswith("::ExitingDirectionSampler") or c.split("::")[-1] in ("operator[]", "Momentum"))
+    core = calls - aux
+    arith = [c for c in core if c.split("::")[-1].startswith("operator") and c.split("::")[-1] not in
+             ("operator()", "operator-", "operator[]", "operator=")]
+    if arith:
+        return False, "vector arithmetic on top: %s" % ", ".join(sorted(c.split("::")[-1] for c in arith))
+    if core & UNITC:
+        return True, "built by %s" % ", ".join(sorted(c.split("::")[-1] if not c.endswith("operator()")
+                                                       else c.split("::")[-2] for c in core & UNITC))
+    refs = [r for r in ev.get("refs", []) if r.startswith("F:")]
+    if not core - {C + "operator-"} and refs and all(r.split("::")[-1] in ("inc_direction_", "direction") for r in refs) \
+            and not any(ch in (ev.get("rhs") or ev.get("t") or "").replace("->", ".").lstrip("-") for ch in "+*/-"):
+        return True, "copy%s of a direction" % (" (negated)" if (C + "operator-") in core else "")
+    if depth < 2:
+        for c in core:
+            gs = db.get(c)
+            rets = [r for g in gs for (_b, _i, r) in g.events("return")]
+            if rets and all(_unit_value(db, r, depth + 1)[0] for r in rets):
+                return True, "every return of %s is a unit vector" % c.split("::")[-1]
+    return False, "not recognisably a unit vector: %s" % (ev.get("rhs") or ev.get("t") or "")[:70]
+
+
+def unit_directions(db, cx):
+    """C04.9-unit-directions: every direction an interactor hands out (Interaction::direction,
+    Secondary::direction) is a unit vector by construction: the direct result of
+    make_unit_vector / from_spherical / rotate / an isotropic or exiting-direction sampler / the
+    momentum-conservation helper, a (negated) copy of such a direction, or a helper all of whose
+    returns are - with no vector arithmetic on top."""
+    n = 0
+    seen = set()
+    for nm in db.find(r"^celeritas::.*(Interactor|FinalStateHelper|AtomicRelaxation)::"):
+        for f in db.get(nm):
+            for (b, i, ev) in f.events("write"):
+                if path_leaf(ev.get("path")) not in (C + "Secondary::direction", C + "Interaction::direction"):
+                    continue
+                if ev["loc"] in seen:
+                    continue
+                seen.add(ev["loc"])
+                ok, how = _unit_value(db, ev)
+                n += 1
+                cx.ob("C04.9-unit-directions", "%s: %s is a unit vector by construction"
+                      % (nm.split("::")[-2], (ev.get("lhs") or "").replace("this->", "")), ok, how,
+                      short(ev["loc"]),
+                      why="directions are used without renormalisation by the geometry and by the "
+                          "next interaction")
+    cx.floor("direction writes in interactors", n, 15)
